@@ -6,8 +6,47 @@ mod calls;
 
 use simcore::c16::{Call, ThreadPlan, Workload};
 
+/// `coldstart --batch FILE`: one process, many calls (one per line: profile kind api fa fb a_hex
+/// b_hex), one outcome line each. Used to compare the same batch under different process
+/// environments (the environment is constant within a process, so batching loses nothing there).
+fn batch(path: &str) {
+    let text = std::fs::read_to_string(path).unwrap_or_default();
+    std::panic::set_hook(Box::new(|_| {}));
+    let inst = calls::Instances::create();
+    let mut out = String::new();
+    for line in text.lines() {
+        let f: Vec<&str> = line.split(' ').collect();
+        if f.len() < 6 {
+            continue;
+        }
+        let n = |i: usize| f[i].parse::<u8>().unwrap_or(255);
+        let sa = simcore::unhex(f[5]).and_then(|b| String::from_utf8(b).ok());
+        let sb = simcore::unhex(f.get(6).copied().unwrap_or("")).and_then(|b| String::from_utf8(b).ok());
+        let (sa, sb) = match (sa, sb) {
+            (Some(x), Some(y)) => (x, y),
+            _ => {
+                out.push_str("?\n");
+                continue;
+            }
+        };
+        let call = Call { profile: n(0), kind: n(1), api: n(2), fa: n(3), fb: n(4), a: 0, b: 1 };
+        let w = Workload { pool: vec![sa, sb], threads: vec![ThreadPlan { parent: 0, after: 0, calls: vec![call.clone()] }] };
+        if !w.valid() {
+            out.push_str("?\n");
+            continue;
+        }
+        out.push_str(&calls::do_call(&w, &call, &inst, &inst).to_line());
+        out.push('\n');
+    }
+    print!("{}", out);
+}
+
 fn main() {
     let a: Vec<String> = std::env::args().collect();
+    if a.len() == 3 && a[1] == "--batch" {
+        batch(&a[2]);
+        return;
+    }
     if a.len() != 8 {
         eprintln!("usage: coldstart profile kind api fa fb a_hex b_hex");
         std::process::exit(2);
